@@ -6,7 +6,6 @@ use datafusion_proto::bytes::{logical_plan_from_bytes, logical_plan_from_json, l
 use dfv::canon::compare;
 use dfv::cases::Case;
 use dfv::diffrun::*;
-use dfv::qgen::GenCfg;
 use vcommon::{fp_mix, fp_str, json, Args, Report, Rng};
 
 fn node_kinds(plan: &LogicalPlan) -> Vec<String> {
@@ -150,7 +149,8 @@ fn run(args: &Args) -> i32 {
     let rep = Report::new("C35", "exploration", args);
     rep.set_rule("case = generated query over Parquet listing tables; its unoptimized and optimized logical plans are encoded (binary and JSON), decoded in a fresh session with the same tables, compared by display_indent_schema text and by differential execution; every expression of the plan is round-tripped through Expr::to_bytes/from_bytes and compared with ==; distinct = hash(case, plan node kinds); non-trivial = at least one successful round trip");
     rep.assume("encode failures are skips (the property is conditional) and are counted by reason");
-    let cfg = GenCfg::default();
+    let cfg = gen_cfg_from(args, "full");
+    rep.extra("generator_fragment", json!(format!("{cfg:?}")));
     for_each_case(args, &rep, 0xC35, args.bound("systematic", 300, 2000), args.bound("random", 300, 8000), &cfg, |case, rng, _| one_case(&rep, case, rng));
     rep.obligation("roundtrips", rep.get_count("roundtrip/optimized/binary") > 100, "plans must actually round-trip");
     rep.finish()
